@@ -99,6 +99,14 @@ func (x *Exec) newSpecial(e *Env, t types.Type) (Value, bool) { return nil, fals
 
 func (x *Exec) nativeMethod(e *Env, callee *types.Func, recv ast.Expr, n *ast.CallExpr) (Value, bool) {
 	pp, key := funcKey(callee)
+	if pp == "math/big" && strings.HasPrefix(key, "Int.") {
+		if bigPtrType == nil {
+			if rt, ok := callee.Type().(*types.Signature).Recv().Type().(*types.Pointer); ok {
+				bigPtrType = rt
+			}
+		}
+		return x.bigMethod(e, callee, recv, n)
+	}
 	if pp == "hash" || pp == "io" || strings.HasPrefix(key, "Hash.") || strings.HasPrefix(key, "Writer.") {
 		if rv, ok := x.peekValue(e, recv); ok {
 			if h, isHash := rv.(HashV); isHash {
@@ -167,6 +175,11 @@ func (x *Exec) builderSet(e *Env, recv ast.Expr, b SliceV) {
 func (x *Exec) nativeFunc(e *Env, callee *types.Func, n *ast.CallExpr) (Value, bool) {
 	pp, key := funcKey(callee)
 	switch pp + "." + key {
+	case "math/big.NewInt":
+		if bigPtrType == nil {
+			bigPtrType = callee.Type().(*types.Signature).Results().At(0).Type()
+		}
+		return x.newBig(e, e.toIntTerm(e.expr(n.Args[0]))), true
 	case "errors.New":
 		// a fresh error distinct from every sentinel: kind = fresh id
 		id := x.errKindID(fmt.Sprintf("errors.New@%s", x.pos(n)))
